@@ -38,6 +38,19 @@ CHECKS = {
              "run of the real element is covered, which no terminating test can observe.",
         note="same trusted base as C03; progress is required only when producer and consumer cooperate forever",
         ref="4 (C03/C04)"),
+    "C05": dict(
+        technique="TLA+ contract (CdcContract) model-checked by TLC on the closed-loop product of a two-clock "
+                  "environment (TLC chooses every interleaving of edges incl. simultaneous ones) with the transition "
+                  "graph of the real netlist, where an edge coinciding with a change of a synchroniser's source has one "
+                  "successor per per-bit old/new resolution of its first flop (metastability injection); liveness "
+                  "Progress / Fresh under fair clocks",
+        text="real stream.AsyncFIFO / ClockDomainCrossing (depth 4, 1-bit payload) and real BusSynchronizer (width 2-3, "
+             "time-outs 12/24 at drift 1/2): InOrderExactlyOnce, ValidHold, NeverOverflows, OnlyRealWords are "
+             "invariants of every reachable state under every edge schedule and every resolution; a canary with the "
+             "premise broken (time-out 8) must tear a word or the run fails.",
+        note="binary per-bit metastability abstraction; FIFO drift bounded by 2-3 edges (unbounded drift did not finish "
+             "in the budget); AsyncResetSynchronizer is the simulator's stand-in; common-reset behaviour not covered",
+        ref="4 (C05)"),
     "C06": dict(
         technique="TLA+ contract (WbIcContract) model-checked by TLC (safety + liveness Served under fairness) on the "
                   "closed-loop product of nondeterministic Wishbone masters/slaves with the transition graph of the "
@@ -72,6 +85,16 @@ CHECKS = {
              "data; known findings: data-before-address misrouted, request to another slave while outstanding "
              "misrouted, arbiter starvation under back-to-back traffic (listed)",
         ref="4 (C08)"),
+    "C10": dict(
+        technique="AMBA burst address rules as TLA+ operators (AxiBurst); requests enumerated by TLC, executed on the real "
+                  "AXIBurst2Beat / AXIUp/DownConverter netlists, recorded beats judged by TLA+ case specs; G-mode "
+                  "closed loop for short bursts under all stall patterns; L2 model of the expander model-checked "
+                  "against the formulae",
+        text="12000 (thorough 38000) legal bursts x stall modes through the real expander, 4500 (12000) converter runs "
+             "at ratios 2/4/8, short bursts exhaustively under every stall pattern with liveness BurstTerminates.",
+        note="converters are trace-validated with seeded stall patterns (ten ports: alphabet too large for G-mode); "
+             "ten known findings on unsupported burst classes accepted silently (listed)",
+        ref="4 (C10)"),
     "C11": dict(
         technique="TLA+ contract (WbIcContract time-out clauses, ErrCounterGraph) model-checked by TLC on the closed-loop "
                   "product of masters and FAULTY slaves (silent forever / late / answering in the expiry cycle) with the "
@@ -83,6 +106,16 @@ CHECKS = {
         note="Wishbone only so far (AXI-Lite/AXI time-outs are added with the C08 family); the default 10^6-cycle "
              "time-out is the same netlist with a wider counter; known finding: wishbone.Crossbar has no time-out",
         ref="4 (C11)"),
+    "C12": dict(
+        technique="TLA+ contracts (CsrBankContract, CsrSramContract) model-checked by TLC on the closed-loop product of a "
+                  "CSR-bus master plus device-side inputs with the transition graph of real CSRBankArray/CSRBank/"
+                  "InterconnectShared netlists built from enumerated register lists; construction cases enumerated by TLC",
+        text="register sets over all kinds (raw CSR, storage +/- atomic, device-writable, status +/- writable, fields, "
+             "pulse fields, fixed locations), sizes 1..2w+1 at bus words 2/4 (T-mode 8/16/32), big/little ordering, two "
+             "banks, paging; eleven clauses are invariants of every reachable state under all bus/device interleavings.",
+        note="multi-word behaviour established at reduced bus words; we and re in the same cycle not explored; known "
+             "finding: atomic_write with little ordering commits on the first address (listed)",
+        ref="4 (C12)"),
     "C13": dict(
         technique="TLA+ spec of the API call-history space (SocAlloc, enumerated by TLC); histories executed on the "
                   "real SoCBusHandler/SoCRegion/SoCLocHandler/ConstraintManager; every recorded prefix judged by a TLA+ "
@@ -94,6 +127,16 @@ CHECKS = {
              "n == n_locs accepted, uncached allocation in the pow2 slack of an IO region, overlapping slave in a "
              "linker region (listed)",
         ref="4 (C13)", engine="tlc+api"),
+    "C14": dict(
+        technique="TLA+ spec of the SoC configuration space (SocConfigs: exhaustive core grid + seeded simulation) built as "
+                  "real CPU-less SoCs; published maps parsed (C accessors statement by statement) and exercised through "
+                  "the SoC's own bus master on the real netlist; recorded facts judged by a TLA+ spec (ExportTruth)",
+        text="254 (thorough 2744) SoCs over bus standard x width x interconnect x CSR width x paging x ordering with "
+             "enumerated peripherals, 592 memory images; nine clauses incl. RegisterAtPublishedAddress, "
+             "MultiWordAccessorsCompose, FormatsAgree, MemImageLanes are invariants of the recorded facts.",
+        note="SoC space sampled apart from the 144-combination grid; interrupts only with a stub CPU; access clauses are "
+             "masked where a listed finding applies (csr width 8, little ordering)",
+        ref="4 (C14)", engine="tlc+api"),
     "C15": dict(
         technique="TLA+ contract (EventContract) model-checked by TLC on the closed-loop product of free trigger "
                   "waveforms and CSR bus operations with the transition graph of the real EventManager+CSRBank netlist",
